@@ -42,6 +42,7 @@ type caseT struct {
 		Cmd   string `json:"cmd"`
 		Class string `json:"class"`
 		React string `json:"react"`
+		Stale bool   `json:"stale"` // the greeting's capabilities were invalidated by a LOGIN, the new list has not arrived
 	} `json:"case"`
 }
 
@@ -332,6 +333,24 @@ func runCase(cs *caseT) ([]map[string]interface{}, error) {
 			return nil, fmt.Errorf("ENABLE failed: %v", err)
 		}
 	}
+	capTag := ""
+	if cs.Case.Stale {
+		// LOGIN answered without CAPABILITY code: what the greeting advertised no longer holds.  The client asks
+		// again on its own; the answer is withheld until the command under test has been written.
+		lg := cl.Login("u", "p")
+		tag, _, err := s.serveCommand("grant", false)
+		if err != nil {
+			return nil, fmt.Errorf("LOGIN: %v", err)
+		}
+		sc.Write([]byte(tag + " OK logged in\r\n"))
+		if err := lg.Wait(); err != nil {
+			return nil, fmt.Errorf("LOGIN failed: %v", err)
+		}
+		capTag, _, err = s.serveCommand("grant", false)
+		if err != nil {
+			return nil, fmt.Errorf("the client did not ask for the capabilities after LOGIN: %v", err)
+		}
+	}
 	// the API call runs in its own goroutine: it blocks while the command is being sent
 	done := make(chan string, 1)
 	arg := ""
@@ -370,10 +389,22 @@ func runCase(cs *caseT) ([]map[string]interface{}, error) {
 			done <- statusOf(err)
 		}
 	}()
+	if capTag != "" {
+		// a command that needs to know the capabilities (Caps() waits for the pending answer) is not written yet:
+		// then the answer comes first - the new list advertises nothing either
+		s.c.SetReadDeadline(time.Now().Add(150 * time.Millisecond))
+		if _, err := s.br.Peek(1); err != nil {
+			sc.Write([]byte("* CAPABILITY IMAP4rev1\r\n" + capTag + " OK capabilities\r\n"))
+			capTag = ""
+		}
+	}
 	tag, refused, err := s.serveCommand(cs.Case.React, true)
 	if err != nil {
 		s.ev(map[string]interface{}{"ev": "Broken", "err": err.Error()})
 		return s.evs, nil
+	}
+	if capTag != "" {
+		sc.Write([]byte("* CAPABILITY IMAP4rev1\r\n" + capTag + " OK capabilities\r\n"))
 	}
 	if !refused {
 		// LOGIN: carry the capabilities so that the client does not issue a CAPABILITY command of its own
